@@ -130,7 +130,7 @@ CONFIGS = [
     # whole-envelope obscuring calls on decorated / twin-decorated / node-subject shapes (C02)
     cfg("obscure_q3", [["build"], ["elideset", "compress", "encrypt", "elideone"], ["compress", "encrypt", "assertions"]],
         atoms=("a1",), nreg=1, maxsize=16, maxt=1, props=("C02Prop", "C03Prop", "C07Prop"),
-        shapes="Decorated(%s) \\cup TwinDecorated(%s) \\cup NodeSubjectNodes(%s, 9)" % (B1, B2, B1)),
+        shapes="Decorated(%s) \\cup TwinDecorated(%s) \\cup NodeSubjectNodes(%s, 9) \\cup MultiPos(%s)" % (B1, B2, B1, B2)),
     # expressions, requests, responses, events (C18)
     cfg("expr_q", [["build"], ["expr_build"], ["malform", "obs_parse", "codec"], ["obs_parse"]],
         atoms=("a1",), nreg=1, maxsize=30, maxt=1, inv=("WellFormedInv",), props=("C18Prop",),
